@@ -164,6 +164,31 @@ def mutate_json(d, jpath, mutation, value=None) -> bool:
             return False
         parent[last] = copy.deepcopy(JSON_KINDS[k])
         return True
+    if mutation.startswith("same:"):
+        # another value of the SAME JSON kind: the document stays well-formed and merely claims
+        # something else (only "never breaks" can be required afterwards)
+        cur = parent[last]
+        v = mutation[5:]
+        k = kind_of(cur)
+        new = {"number": {"zero": 0, "neg": -1, "huge": 10 ** 12, "frac": 1.5},
+               "string": {"empty": "", "other": "zz", "long": "x" * 300, "dots": "././a.py"},
+               "array": {"empty": [], "half": None, "short": None},
+               "object": {"empty": {}},
+               "bool": {"flip": None}}.get(k, {})
+        if v not in new:
+            return False
+        if k == "array" and v == "half":
+            val = cur[: len(cur) // 2]
+        elif k == "array" and v == "short":
+            val = cur[:-1]
+        elif k == "bool":
+            val = not cur
+        else:
+            val = new[v]
+        if val == cur:
+            return False
+        parent[last] = copy.deepcopy(val)
+        return True
     if mutation == "set":
         parent[last] = value
         return True
